@@ -391,7 +391,9 @@ def foreign_index_case():
             r._authenticated = True
             raws = []
             for k, (sig, idx, fds, want) in enumerate(cases):
-                raws.append(ref_message(1, 0, k + 1, [(1, '/o'), (2, 'org.e.I'), (3, 'M'), (8, sig), (9, len(fds))], sig, idx, le))
+                # (every other message carries a header field of a code this library does not know, ahead of the fields that matter)
+                raws.append(ref_message(1, 0, k + 1, [(1, '/o'), (2, 'org.e.I'), (3, 'M'), (8, sig), (9, len(fds))], sig, idx, le,
+                                        extra_fields=[(10, 's', 'container-instance')] if k % 2 else (), extras_first=True))
             if lead:                      # every descriptor is already queued when the first byte is read
                 for _s, _i, fds, _w in cases:
                     for f in fds:
